@@ -41,7 +41,8 @@ def required_cells(tier):
             "non-member-header:included-from-fortran-and-c", "non-member-header:forced-by-assembly-and-c",
             "competing-modes-under-hash-seeds", "platforms-sharing-one-database", "rounding-tie:distance", "rounding-tie:divergence",
             "rounding-tie:average-coverage", "rounding-tie:distinct-enumeration-orders", "identical-bytes-in-two-languages",
-            "missing-database:platform-tables-permuted"]
+            "missing-database:platform-tables-permuted", "lookup:header-names-differing-only-in-case-none-exact",
+            "lookup:include-chain>100-for-two-platforms-in-both-orders"]
 
 
 PASS_CONFIG = """[[compiler.gcc.parser]]
@@ -554,6 +555,75 @@ def missing_database_scenario(ctx, base):
         acc.held(cells=cells, cls="mixed", nontrivial={"scenario": "missing database"})
 
 
+def order_sensitive_lookups_scenarios(ctx, base):
+    """Two fixed code bases whose analysis must not depend on enumeration or table order although a shortcut in the
+    look-up code would make it:
+      K  `#include "settings.h"` where only Settings.h and SETTINGS.h exist (different contents): under every directory
+         order the include stays unresolved (or resolves the same way);
+      D  an include chain 104 headers deep compiled identically by two platforms: both orders of the platform tables
+         give each platform the same lines."""
+    acc = ctx.acc
+    for name in ("K", "D"):
+        d = os.path.join(base, "lookup" + name)
+        shutil.rmtree(d, ignore_errors=True)
+        root = os.path.join(d, "root")
+        os.makedirs(os.path.join(root, "inc"))
+        if name == "K":
+            files = {"main.c": "#include \"settings.h\"\n#include <Config.H>\nint m;\n#ifdef FAST\nint fast;\nint fast2;\n#else\nint slow;\n#endif\n",
+                     "inc/Settings.h": "#define FAST 1\nint s1;\n", "inc/SETTINGS.h": "int s2;\nint s3;\nint s4;\n", "inc/sETTINGS.H": "#define FAST 2\n",
+                     "inc/config.h": "#define FAST 3\n", "inc/CONFIG.h": "int c;\n"}
+            dbs = {"cpu": [{"file": "main.c", "directory": root, "arguments": ["gcc", "-Iinc", "-c", "main.c"]}]}
+            variants = [dict(hashseed=str(h), shuffle=None, order=0, tables=["cpu"]) for h in range(3)] + \
+                       [dict(hashseed="0", shuffle=30 + k, order=0, tables=["cpu"]) for k in range(6)] + \
+                       [dict(hashseed="0", shuffle=None, order=k, tables=["cpu"]) for k in (1, 2, 3)]
+        else:
+            files = {"main.c": "#include \"h001.h\"\nint m;\n"}
+            for k in range(1, 105):
+                files["inc/h%03d.h" % k] = ("#include \"h%03d.h\"\n" % (k + 1) if k < 104 else "") + "int v%d;\n" % k
+            dbs = {p: [{"file": "main.c", "directory": root, "arguments": ["gcc", "-Iinc", "-c", "main.c"]}] for p in ("A", "B")}
+            variants = [dict(hashseed="0", shuffle=None, order=0, tables=["A", "B"]), dict(hashseed="0", shuffle=None, order=0, tables=["B", "A"]),
+                        dict(hashseed="1", shuffle=31, order=0, tables=["B", "A"]), dict(hashseed="2", shuffle=None, order=1, tables=["A", "B"])]
+        results = []
+        cur = None
+        for v in variants:
+            if v["order"] != cur:
+                shutil.rmtree(root, ignore_errors=True)
+                os.makedirs(os.path.join(root, "inc"))
+                items = sorted(files.items())
+                random.Random(v["order"]).shuffle(items)
+                for rel, text in items:
+                    with open(os.path.join(root, rel), "w") as f:
+                        f.write(text)
+                for p, es in dbs.items():
+                    with open(os.path.join(root, p + ".json"), "w") as f:
+                        json.dump(es, f)
+                cur = v["order"]
+            with open(os.path.join(root, "analysis.toml"), "w") as f:
+                for p in v["tables"]:
+                    f.write(f"[platform.{p}]\ncommands = \"{p}.json\"\n\n")
+            dump = os.path.join(d, "dump.json")
+            launch = {"dump": dump}
+            if v["shuffle"] is not None:
+                launch["shuffle"] = v["shuffle"]
+            rc, out, err = cli.run("codebasin", ["-R", "summary", "analysis.toml"], root, launch=launch, hashseed=v["hashseed"], timeout=900)
+            acc.hook("cli-runs")
+            if rc != 0:
+                results.append((v, {"error": err[-300:]}))
+                continue
+            dd = json.load(open(dump))
+            results.append((v, {"setmap": dd["setmap"], "attribution": {os.path.relpath(k_, os.path.realpath(root)): x for k_, x in dd["attribution"].items()}}))
+        cells = {"lookup:" + ("header-names-differing-only-in-case-none-exact" if name == "K" else "include-chain>100-for-two-platforms-in-both-orders")}
+        distinct = {json.dumps(o, sort_keys=True) for _, o in results}
+        if len(distinct) != 1 or any("error" in o for _, o in results):
+            by = {}
+            for v, o in results:
+                by.setdefault(json.dumps(o.get("setmap", o), sort_keys=True), []).append(v)
+            acc.violated({"input": {"scenario": "lookup-" + name}, "witness": {"kind": "result depends on enumeration / table order", "setmaps": [
+                {"setmap": json.loads(k_), "runs": r_[:3], "n_runs": len(r_)} for k_, r_ in by.items()]}}, cells=cells, cls="mixed")
+        else:
+            acc.held(cells=cells, cls="mixed", nontrivial={"scenario": "lookup-" + name})
+
+
 def run_shard(ctx):
     b = bounds(ctx.tier)
     base = os.path.join(ctx.scratch, "c14")
@@ -563,6 +633,8 @@ def run_shard(ctx):
         competing_modes_scenario(ctx, base + "-modes")
     if ctx.shard == 2 % ctx.nshards:
         missing_database_scenario(ctx, base + "-missingdb")
+    if ctx.shard == 3 % ctx.nshards:
+        order_sensitive_lookups_scenarios(ctx, base + "-lookup")
     tie_names = sorted(TIES)
     mine = [n for k, n in enumerate(tie_names) if (k + 2) % ctx.nshards == ctx.shard]
     if mine:
